@@ -272,13 +272,61 @@ Proof.
   - exfalso. apply (H n); [left; reflexivity|exact E].
 Qed.
 
+Lemma s_dflt_eqb_spec : forall names a b,
+  s_dflt_eqb names a b = true <-> (forall n, In n names -> s_val a n = s_val b n).
+Proof.
+  induction names as [|n r IH]; intros a b; simpl.
+  - split; [intros _ n []|reflexivity].
+  - rewrite andb_true_iff, IH, fval_eqb_eq. split.
+    + intros [H1 H2] m [Hm|Hm]; [subst; exact H1|apply H2; exact Hm].
+    + intro H. split; [apply H; left; reflexivity|intros m Hm; apply H; right; exact Hm].
+Qed.
+
+Lemma s_attrs_eqb_val : forall names a b, s_attrs_eqb names a b = true ->
+  forall n, In n names -> s_val a n = s_val b n.
+Proof.
+  induction names as [|m r IH]; intros a b H n Hn; [destruct Hn|]. simpl in H.
+  destruct (assoc m (s_attrs a)) as [x|] eqn:Ea; [|discriminate].
+  destruct (assoc m (s_attrs b)) as [y|] eqn:Eb; [|discriminate].
+  apply andb_true_iff in H. destruct H as [H1 H2]. destruct Hn as [Hn|Hn].
+  - subst n. unfold s_val. rewrite Ea, Eb. apply fval_eqb_eq. exact H1.
+  - apply IH; assumption.
+Qed.
+
 Lemma s_py_eq_refl : forall s, s_wf s -> s_py_eq s s = true.
 Proof.
   intros s [C W]. unfold s_py_eq, py_dispatch.
   assert (s_eq_method s s = true) as E.
   { unfold s_eq_method. rewrite s_attrs_eqb_refl by exact W.
-    destruct C as [C|C]; rewrite C; vm_compute; reflexivity. }
+    assert (s_dflt_eqb sock_eq_attrs_dflt s s = true) as D by (apply s_dflt_eqb_spec; reflexivity).
+    rewrite D. destruct C as [C|C]; rewrite C; vm_compute; reflexivity. }
   destruct (proper_subclass _ _); exact E.
+Qed.
+
+(* the settings of an fcgi socket that reach the socket: [fcgi-program:x] socket (url),
+   socket_backlog, socket_mode, socket_owner *)
+Definition documented_socket_attrs : list string := ["url"; "backlog"; "mode"; "owner"]%string.
+
+Lemma documented_socket_attrs_compared :
+  forall n, In n documented_socket_attrs -> In n (sock_eq_attrs ++ sock_eq_attrs_dflt).
+Proof. apply str_incl_In. vm_compute. reflexivity. Qed.
+
+(* two socket configs that differ in any compared attribute (an attribute an object does not
+   have reads as None, as getattr(..., None) does) are unequal *)
+Theorem socket_attr_detected : forall s t n,
+  In n (sock_eq_attrs ++ sock_eq_attrs_dflt) -> s_val s n <> s_val t n -> s_py_eq s t = false.
+Proof.
+  assert (forall s t n, In n (sock_eq_attrs ++ sock_eq_attrs_dflt) -> s_val s n <> s_val t n ->
+                        s_eq_method s t = false) as K.
+  { intros s t n Hn Hd. destruct (s_eq_method s t) eqn:E; [|reflexivity]. exfalso. apply Hd.
+    unfold s_eq_method in E. apply andb_true_iff in E. destruct E as [E E3].
+    apply andb_true_iff in E. destruct E as [_ E2].
+    apply in_app_or in Hn. destruct Hn as [Hn|Hn].
+    - apply (s_attrs_eqb_val _ _ _ E2 n Hn).
+    - apply (proj1 (s_dflt_eqb_spec _ _ _) E3 n Hn). }
+  intros s t n Hn Hd. unfold s_py_eq, py_dispatch. destruct (proper_subclass _ _).
+  - apply (K t s n Hn). intro E. apply Hd. symmetry. exact E.
+  - apply (K s t n Hn Hd).
 Qed.
 
 (* ------------------------------------------------------------ group configs *)
@@ -743,26 +791,32 @@ Proof.
   rewrite Forall_forall in W. destruct (W g Hg) as [C _]. exact C.
 Qed.
 
-(* Known finding C15-fcgi-socket-options: the socket's url is all that is compared *)
-Theorem socket_options_detected_refuted :
-  exists g o m m',
-    g_class g = FCGI /\ g_class o = FCGI /\ g_name g = g_name o /\
-    g_get g "socket_config" = Some (GSock (mksock "UnixStreamSocketConfig" ["url"; "mode"]%string [FVal [1]; m])) /\
-    g_get o "socket_config" = Some (GSock (mksock "UnixStreamSocketConfig" ["url"; "mode"]%string [FVal [1]; m'])) /\
-    m <> m' /\ g_py_ne g o = false /\ reload_answer [g] [o] = ([], [], []).
+Lemma socket_config_in_spec_fcgi : In "socket_config"%string (spec_attrs FCGI).
+Proof. vm_compute. tauto. Qed.
+
+(* any change of an fcgi socket's url, backlog, mode or owner is reported
+   (was known finding C15-fcgi-socket-options until the comparison was repaired) *)
+Theorem socket_option_reported : forall new cur g o s t n,
+  NoDup (names cur) -> Forall g_wf new ->
+  In g new -> In o cur -> g_name o = g_name g -> g_class g = FCGI -> is_group_class (g_class o) ->
+  g_get g "socket_config" = Some (GSock s) -> g_get o "socket_config" = Some (GSock t) ->
+  In n (sock_eq_attrs ++ sock_eq_attrs_dflt) -> s_val s n <> s_val t n ->
+  let '(_, c, _) := reload_answer new cur in In (g_name g) c.
 Proof.
-  pose (mk := fun m => Build_gconf 0 FCGI [102]
-     [("priority"%string, GVal [1]); ("process_configs"%string, GProcs []);
-      ("socket_config"%string, GSock (mksock "UnixStreamSocketConfig" ["url"; "mode"]%string [FVal [1]; m]))]).
-  exists (mk (FVal [7])), (mk (FVal [6])), (FVal [7]), (FVal [6]).
-  repeat split; try reflexivity; try (vm_compute; reflexivity). discriminate.
+  intros new cur g o s t n ND W Hg Ho Hn Cg Co Gg Go Sn Hd.
+  apply (group_reported_changed new cur g o); try assumption.
+  apply (group_attr_detected g o "socket_config"); try assumption.
+  - rewrite Cg. unfold is_group_class. auto.
+  - rewrite Cg. apply socket_config_in_spec_fcgi.
+  - intros [x [y [Hx [Hy He]]]]. rewrite Gg in Hx. rewrite Go in Hy. inversion Hx; inversion Hy; subst.
+    simpl in He. rewrite (socket_attr_detected s t n Sn Hd) in He. discriminate.
 Qed.
 
-(* the signature predicate of that finding: the two configs differ only inside socket_config,
-   outside its url *)
-Definition socket_only_difference (g o : gconf) : bool :=
-  match g_get g "socket_config", g_get o "socket_config" with
-  | Some (GSock s), Some (GSock t) =>
-      s_py_eq s t && negb (list_eqb (fun a b => String.eqb (fst a) (fst b) && fval_eqb (snd a) (snd b)) (s_attrs s) (s_attrs t))
-  | _, _ => false
-  end.
+Example socket_option_reported_ex :
+  let mk := fun m => Build_gconf 0 FCGI [102]
+     [("priority"%string, GVal [1]); ("process_configs"%string, GProcs []);
+      ("socket_config"%string, GSock (mksock "UnixStreamSocketConfig" ["url"; "backlog"; "mode"]%string
+                                              [FVal [1]; FVal [78]; m]))] in
+  reload_answer [mk (FVal [7])] [mk (FVal [6])] = ([], [[102]], []) /\
+  reload_answer [mk (FVal [7])] [mk (FVal [7])] = ([], [], []).
+Proof. vm_compute. split; reflexivity. Qed.
